@@ -580,12 +580,15 @@ def write_corpus_tree(repo=None):
     return descs
 
 
-def batch_key(descs):
+def batch_key(descs, texts):
+    """names the batch tree: the hand-written sources, the description tokens and the emitted parts"""
     h = hashlib.sha256()
-    for f in (os.path.join(HARNESS_SRC, "src", "main.rs"), os.path.join(HARNESS_SRC, "rt", "src", "lib.rs"), os.path.abspath(__file__)):
+    for f in (os.path.join(HARNESS_SRC, "src", "main.rs"), os.path.join(HARNESS_SRC, "rt", "src", "lib.rs")):
         h.update(open(f, "rb").read())
     for d in descs:
         h.update(desc_token(d).encode())
+    for t in texts:
+        h.update(t.encode())
     return h.hexdigest()[:10]
 
 
@@ -595,22 +598,21 @@ def write_batch_tree(rand_descs, repo=None):
     repo = repo or core.REPO
     corpus = write_corpus_tree(repo)
     descs = corpus + rand_descs
-    key = batch_key(descs)
+    n0, n = len(corpus), len(descs)
+    rparts = min(NRAND_PARTS, max(1, len(rand_descs)))
+    part_texts = [emit_part(descs, [k for k in range(n0, n) if (k - n0) % rparts == j]) for j in range(rparts)] if rand_descs else []
+    key = batch_key(descs, part_texts)
     name = "hiface_" + key
     outdir = os.path.join(core.BUILD, "hiface", key)
-    n0, n = len(corpus), len(descs)
     crate_of = {k: "hiface_c%d" % (k % NCORPUS_PARTS) for k in range(n0)}
-    rparts = min(NRAND_PARTS, max(1, len(rand_descs)))
     for k in range(n0, n):
         crate_of[k] = "%s_r%d" % (name, (k - n0) % rparts)
     rt_abs = os.path.join(HARNESS_SRC, "rt")
     parts = [("hiface_c%d" % j, os.path.join(HARNESS_SRC, "parts", "c%d" % j)) for j in range(NCORPUS_PARTS)]
-    if rand_descs:
-        for j in range(rparts):
-            write_if_changed(os.path.join(outdir, "parts", "r%d" % j, "Cargo.toml"), part_toml("%s_r%d" % (name, j), rt_abs, repo))
-            write_if_changed(os.path.join(outdir, "parts", "r%d" % j, "src", "lib.rs"),
-                             emit_part(descs, [k for k in range(n0, n) if (k - n0) % rparts == j]))
-            parts.append(("%s_r%d" % (name, j), "parts/r%d" % j))
+    for j, text in enumerate(part_texts):
+        write_if_changed(os.path.join(outdir, "parts", "r%d" % j, "Cargo.toml"), part_toml("%s_r%d" % (name, j), rt_abs, repo))
+        write_if_changed(os.path.join(outdir, "parts", "r%d" % j, "src", "lib.rs"), text)
+        parts.append(("%s_r%d" % (name, j), "parts/r%d" % j))
     write_if_changed(os.path.join(outdir, "Cargo.toml"), bin_toml(name, os.path.join(core.HARNESS, "hcommon"), rt_abs, parts, repo))
     write_if_changed(os.path.join(outdir, "src", "gen_ifaces.rs"), emit_tables(descs, crate_of))
     write_if_changed(os.path.join(outdir, "src", "main.rs"), open(os.path.join(HARNESS_SRC, "src", "main.rs")).read())
@@ -1245,9 +1247,9 @@ def run_property(prop, pid, tier, seed, replay=None):
             samples = [{"case": c[:1500], "impl": i[:1500], "model_spec_class": m[:3000]} for c, i, m in
                        list(zip(cases, impl_out, model_out))[::step][:4]]
         # extraction vs in-Coq evaluation on a sample
-        kx = 6 if tier == "quick" else 20
-        pick = sorted(rng.sample(range(len(cases)), min(kx, len(cases))))
-        pick = [i for i in pick if len(cases[i]) < 6000][:kx]
+        kx = 3 if tier == "quick" else 12
+        short = [i for i in range(len(cases)) if len(cases[i]) < 2500]
+        pick = sorted(rng.sample(short, min(kx, len(short))))
         okx, outx = core.vm_crosscheck(pid, prop.RUN_MODULE, [cases[i] for i in pick], [model_out[i] for i in pick])
         if not okx:
             tool_errors.append("extracted model and vm_compute disagree on the sample: " + outx[-400:])
